@@ -193,7 +193,27 @@ impl Exec {
             "gen" => guard(|| gen(ctx)),
             "genl" => guard(|| genl(ctx)),
             "att" => guard(|| att(ctx)),
-            "verdict" => guard(|| verdict(ctx, false)),
+            "verdict" => {
+                let r = guard(|| verdict(ctx, false));
+                // C16 decision predicate: the move-count draw is reported exactly when the
+                // half-move clock has reached 100 (no repetition involved here)
+                let hm = ctx.board.halfmove_clock();
+                let seen = ctx.board.max_seen_position_count();
+                let mut msgs: Vec<String> = vec![];
+                if seen != 3 && r != "PANIC" {
+                    let drawn = r.ends_with(" D");
+                    if drawn && hm < 100 {
+                        msgs.push(format!("! C16 game reported drawn on move count with half-move clock {} (< 100) in [{}]", hm, snap(&ctx.board)));
+                    }
+                    if !drawn && hm >= 100 {
+                        msgs.push(format!("! C16 game not reported drawn with half-move clock {} (>= 100) in [{}]", hm, snap(&ctx.board)));
+                    }
+                }
+                for m in msgs {
+                    self.line(&m);
+                }
+                r
+            }
             "verdictl" => guard(|| verdict(ctx, true)),
             "effects" => guard(|| effects(ctx, false)),
             "effectsl" => guard(|| effects(ctx, true)),
@@ -270,7 +290,14 @@ impl Exec {
     }
 
     pub fn legal(&mut self) -> Vec<ChessMove> {
-        gen_fresh(&mut self.ctx)
+        // generation itself can abort (e.g. an overflowing counter): end the walk there
+        match catch_unwind(AssertUnwindSafe(|| gen_fresh(&mut self.ctx))) {
+            Ok(v) => v,
+            Err(_) => {
+                self.line("# move generation panicked while choosing the next move");
+                vec![]
+            }
+        }
     }
 
     fn kind(&mut self, m: &ChessMove) {
